@@ -355,9 +355,9 @@ impl Owner {
     }
 }
 
-pub struct Query;
+pub struct QueryCore;
 #[Object]
-impl Query {
+impl QueryCore {
     async fn dog(&self, ctx: &Context<'_>, #[graphql(default = 0)] i: i32) -> Result<Option<Dog>> {
         let _ = i;
         res(ctx, root(ctx, 0)?, "Query", "dog").await
@@ -397,6 +397,86 @@ impl Query {
     }
 }
 
+pub struct QueryExtra;
+#[Object]
+impl QueryExtra {
+    async fn extra(&self, ctx: &Context<'_>) -> Result<Option<i32>> {
+        res(ctx, root(ctx, 0)?, "Query", "extra").await
+    }
+    #[graphql(name = "extraNN")]
+    async fn extra_nn(&self, ctx: &Context<'_>) -> Result<i32> {
+        res(ctx, root(ctx, 0)?, "Query", "extraNN").await
+    }
+    async fn stats(&self, ctx: &Context<'_>) -> Result<Option<Stats>> {
+        res(ctx, root(ctx, 0)?, "Query", "stats").await
+    }
+    async fn boxed(&self, ctx: &Context<'_>) -> Result<Option<Boxed<Dog>>> {
+        res(ctx, root(ctx, 0)?, "Query", "boxed").await
+    }
+}
+
+#[derive(MergedObject, Default)]
+pub struct Query(QueryCore, QueryExtra);
+impl Default for QueryCore {
+    fn default() -> Self {
+        QueryCore
+    }
+}
+impl Default for QueryExtra {
+    fn default() -> Self {
+        QueryExtra
+    }
+}
+
+/// SimpleObject + ComplexObject: plain fields come from the world at construction time, the complex field is a
+/// logging resolver
+#[derive(SimpleObject)]
+#[graphql(complex)]
+pub struct Stats {
+    #[graphql(skip)]
+    node: usize,
+    pub a: i32,
+    pub b: Option<String>,
+}
+#[ComplexObject]
+impl Stats {
+    async fn c(&self, ctx: &Context<'_>, #[graphql(default = 1)] n: i32) -> Result<Option<i32>> {
+        let _ = n;
+        res(ctx, self.node, "Stats", "c").await
+    }
+}
+impl FromW for Stats {
+    fn from_w(v: &WVal, w: &World) -> Result<Self> {
+        match v {
+            WVal::Ref(n) if w.nodes[*n].ty == "Stats" => Ok(Stats {
+                node: *n,
+                a: i32::from_w(w.value(*n, "a").unwrap_or(&WVal::Int(0)), w)?,
+                b: Option::<String>::from_w(w.value(*n, "b").unwrap_or(&WVal::Null), w)?,
+            }),
+            v => bad("Stats", v),
+        }
+    }
+}
+
+/// generic object with a concrete name and a flattened-in label
+#[derive(SimpleObject)]
+#[graphql(concrete(name = "BoxedDog", params(Dog)))]
+pub struct Boxed<T: OutputType> {
+    pub value: T,
+    pub label: Option<String>,
+}
+impl FromW for Boxed<Dog> {
+    fn from_w(v: &WVal, w: &World) -> Result<Self> {
+        match v {
+            WVal::Ref(n) if w.nodes[*n].ty == "BoxedDog" => Ok(Boxed {
+                value: Dog::from_w(w.value(*n, "value").unwrap_or(&WVal::Null), w)?,
+                label: Option::<String>::from_w(w.value(*n, "label").unwrap_or(&WVal::Null), w)?,
+            }),
+            v => bad("BoxedDog", v),
+        }
+    }
+}
+
 fn root(ctx: &Context<'_>, which: usize) -> Result<usize> {
     let rt = ctx.data::<Rt>()?;
     match which {
@@ -431,7 +511,7 @@ impl Mutation {
 pub type ZSchema = Schema<Query, Mutation, EmptySubscription>;
 
 pub fn build_z(configure: impl FnOnce(SchemaBuilder<Query, Mutation, EmptySubscription>) -> SchemaBuilder<Query, Mutation, EmptySubscription>) -> ZSchema {
-    configure(Schema::build(Query, Mutation, EmptySubscription)).finish()
+    configure(Schema::build(Query::default(), Mutation, EmptySubscription)).finish()
 }
 
 /// the `Sch` mirror of Z, read back from Z's SDL by the reference parser
@@ -442,4 +522,10 @@ pub fn z_sch(schema: &ZSchema) -> vgql::sch::Sch {
         sch.types.shift_remove(b);
     }
     sch
+}
+
+/// fields of Z that are plain data (SimpleObject members): no resolver runs for them, so they cannot fail, are not
+/// logged and cannot be gated
+pub fn is_plain_data_field(parent_type: &str, field: &str) -> bool {
+    matches!((parent_type, field), ("Stats", "a") | ("Stats", "b") | ("BoxedDog", _))
 }
